@@ -55,9 +55,17 @@ impl BlakeRNGFactory {
     }
 
     pub fn get_rng(&self) -> BlakeRNG {
+        #[cfg(feature = "verif")]
+        if self.use_random_seed {
+            if let Some(seed) = crate::verif::rng_hooks::next_entropy() {
+                crate::verif::rng_hooks::record(crate::verif::rng_hooks::Rec::Generator { seed, overridden: true });
+                return BlakeRNG::from_seed(PRNGSeed(seed));
+            }
+        }
         if self.use_random_seed {
             let mut seed = [0; 64];
             ChaCha20Rng::from_entropy().fill_bytes(&mut seed);
+            #[cfg(feature = "verif")] crate::verif::rng_hooks::record(crate::verif::rng_hooks::Rec::Generator { seed, overridden: false });
             BlakeRNG::from_seed(PRNGSeed(seed))
         } else {
             BlakeRNG::from_seed(self.seed)
